@@ -88,8 +88,8 @@ def o_refused(root, pre, op, res, extra):
 
 def o_no_double(root, pre, op, res, extra):
     """C19: re-inserting a node that already lives elsewhere must always be refused."""
-    if not res or res[0] != 'ok':
-        return []
+    if not res or res[0] != 'ok' or op['kind'] == 'numop':
+        return []  # arithmetic copies its right operand (C13); it does not re-insert the node
     refs = extra.get('attached_args', [])
     for v, same_slot in refs:
         if not same_slot:
